@@ -83,6 +83,33 @@ DENSITY_CONFIGS = {'inf': {'default_solid_density': 'inf', 'default_enzyme_densi
                    'dense': {'default_solid_density': 2.5, 'default_enzyme_density': 50}}
 
 
+DISPLAY_CONFIGS = {'display': {'precisions': {'default': 5, 'uL': 2, 'umol': 3, 'mg': 2, 'mL': 4, 'mmol': 4},
+                               'volume_display_unit': 'mL', 'moles_display_unit': 'mmol',
+                               'concentration_display_unit': 'mM', 'default_weight_volume_units': 'g/L'},
+                   # storage units whose SI prefixes differ between volume and moles (the default, mL/mmol and L/mol all have
+                   # equal prefixes, which hides any mix-up of the two scales)
+                   'mixed_storage': {'volume_storage_unit': 'mL', 'moles_storage_unit': 'umol'},
+                   'mixed_storage2': {'volume_storage_unit': 'uL', 'moles_storage_unit': 'mmol', 'moles_display_unit': 'nmol'}}
+
+
+def under_display_configs(jobs):
+    """Copies of `jobs` under documented non-default configurations: a *display* configuration (other display units, finer
+    display precisions, %w/v in g/L - defaults of observers and tracking queries, instruction texts and percent strings
+    follow it) and two *storage* configurations with unequal prefixes.  The monitors read the same file."""
+    import copy
+    out = []
+    for tag, cfg in DISPLAY_CONFIGS.items():
+        for j in jobs:
+            j2 = copy.deepcopy(j)
+            j2['config'] = cfg
+            j2['params'] = dict(j.get('params') or {}, display=tag)
+            shift = 5000000 * (1 + list(DISPLAY_CONFIGS).index(tag))
+            j2['lo'] += shift
+            j2['hi'] += shift
+            out.append(j2)
+    return out
+
+
 def under_density_configs(jobs):
     """Copies of `jobs` to be run under the documented non-default densities (zero-volume solids and enzymes;
     2.5 g/mL and 50 U/mL).  The universal monitors read the configuration in effect, so they apply unchanged."""
